@@ -26,7 +26,6 @@ ASSUMPTIONS = [
     "direct UCMM with a route: the library appends the encoded route after the request data (by design, used for Forward Open); the oracle "
     "expects exactly request_data + encoded route there",
     "status 6 (partial transfer) is not used as a refusal status here (C13 owns the partial-transfer rule)",
-    "unconnected_send=True together with route_path=False (an Unconnected Send without a route path) is outside the domain",
     "set_plc_time values are limited to times a Python datetime can represent",
 ]
 FLOORS = {"quick": {"connected": 300, "ucmm": 300, "ucsend": 300, "helper": 300, "refused": 300},
@@ -59,7 +58,12 @@ def route_arg(c):
     if form == "false":
         return False
     if form == "string":
-        return "/".join(f"{p}/{l}" for p, l in hops)
+        # a route string takes the separators of the path grammar (/ \ ,), also mixed
+        seps = c.get("route_seps") or "/"
+        parts = [str(x) for p, l in hops for x in (p, l)]
+        return "".join(x + (seps[i % len(seps)] if i < len(parts) - 1 else "") for i, x in enumerate(parts))
+    if form == "empty-list":
+        return []
     if form == "list":
         return [PortSegment(p, l) for p, l in hops]
     enc = RP.enc_route([(RP.PORT_NAMES.get(p, p) if isinstance(p, str) else p, l) for p, l in hops])
@@ -115,7 +119,7 @@ def check_generic(c):
                 return discs + [Disc("ucsend.not-delivered", f"router log: {[(e['transport'], hex(e['service'])) for e in mine]}")]
             e = inner[0]
             u = outer[0]["ucsend"]
-            want_route = {"true": ref_route(path_hops), "default": ref_route(path_hops), "false": b""}.get(c["route_form"])
+            want_route = {"true": ref_route(path_hops), "default": ref_route(path_hops), "false": b"", "empty-list": b""}.get(c["route_form"])
             if want_route is None:
                 want_route = ref_route([tuple(h) for h in c["route_hops"]])
             if u["route"] != want_route:
@@ -289,13 +293,13 @@ def generic_cases(draw):
         reply = draw(st.binary(max_size=40))
     cls = draw(id_arg().filter(lambda x: val_of(x) != 6))
     mode = draw(st.sampled_from(["connected", "ucmm", "ucsend"]))
-    # Unconnected Send without any route (route_path=False) is not a meaningful request: not generated
-    forms = ["default", "true", "false", "string", "list", "bytes"] if mode != "ucsend" else ["default", "true", "string", "list", "bytes"]
+    # (an Unconnected Send asked for without a route - route_path False or an empty list - is a wrapper with an empty route path)
+    forms = ["default", "true", "false", "string", "list", "bytes"] + (["empty-list"] if mode == "ucsend" else [])
     return {"host": draw(st.sampled_from(HOSTS)), "path_hops": draw(st.lists(hop, max_size=3)),
             "service": draw(st.one_of(st.integers(1, 0x7F), st.integers(1, 0x7F).map(lambda v: bytes([v])))),
             "cls": cls, "inst": draw(id_arg()), "attr": draw(st.one_of(st.none(), st.just(0), st.just(b""), id_arg())),
             "data": (seed * (n // len(seed) + 1))[:n], "mode": mode,
-            "route_form": draw(st.sampled_from(forms)),
+            "route_form": draw(st.sampled_from(forms)), "route_seps": draw(st.sampled_from(["/", "/", "\\", ",", "/,", ",\\/"])),
             "route_hops": draw(st.lists(hop, min_size=1, max_size=3)), "data_type": dt, "status": status,
             "ext": draw(st.sampled_from([[], [], [0x0100], [0x2105, 0x0000]])) if status else [], "reply": reply,
             "session": draw(st.integers(1, 0xFFFFFFFF)), "cid": draw(st.integers(1, 0xFFFFFFFF)), "fo_policy": draw(st.sampled_from(["large", "std"]))}
